@@ -18,7 +18,11 @@ COQ = os.path.join(VERIF, "coq")
 TARGET = os.path.join(CACHE, "target")
 VHARNESS = os.path.join(TARGET, "debug", "vharness")
 GITAI = os.path.join(TARGET, "debug", "git-ai")
-DRIVER = os.path.join(CACHE, "driver")
+
+
+def driver_path(name):
+    return os.path.join(CACHE, "driver_" + name)
+
 NCPU = os.cpu_count() or 4
 
 os.makedirs(CACHE, exist_ok=True)
@@ -161,9 +165,27 @@ def regen():
     return man, r.stdout
 
 
+def write_coqproject():
+    """_CoqProject lists every .v under Base, Gen, Model, Proofs, Properties, Extract."""
+    lines = ["-Q . Verif",
+             "-arg -w -arg -notation-overridden,-deprecated-hint-without-locality,-deprecated-instance-without-locality"]
+    for d in ("Base", "Gen", "Model", "Proofs", "Properties", "Extract"):
+        dd = os.path.join(COQ, d)
+        if os.path.isdir(dd):
+            for fn in sorted(os.listdir(dd)):
+                if fn.endswith(".v"):
+                    lines.append(f"{d}/{fn}")
+    text = "\n".join(lines) + "\n"
+    p = os.path.join(COQ, "_CoqProject")
+    if not os.path.exists(p) or open(p).read() != text:
+        with open(p, "w") as f:
+            f.write(text)
+
+
 def coq_build():
     """Full .vo build of the development (make is a no-op when nothing changed)."""
     with Lock("coq.lock"):
+        write_coqproject()
         if not os.path.exists(os.path.join(COQ, "Makefile")) or \
                 os.path.getmtime(os.path.join(COQ, "Makefile")) < os.path.getmtime(os.path.join(COQ, "_CoqProject")):
             r = run(["coq_makefile", "-f", "_CoqProject", "-o", "Makefile"], cwd=COQ)
@@ -183,25 +205,31 @@ def failed_vfiles(make_log):
     return out
 
 
-def driver_build():
+def driver_build(name):
+    """Build .cache/driver_<name> from coq/Extract/{sexp.ml, m_<name>.ml(i), prelude.ml, d_<name>.ml}."""
     with Lock("ocaml.lock"):
         src = os.path.join(COQ, "Extract")
-        ml = os.path.join(src, "model.ml")
+        ml = os.path.join(src, f"m_{name}.ml")
         if not os.path.exists(ml):
-            raise BuildError("driver", "coq/Extract/model.ml missing (extraction did not run)")
-        deps = [os.path.join(src, f) for f in ("model.ml", "model.mli", "driver.ml", "sexp.ml")]
-        if os.path.exists(DRIVER) and all(os.path.getmtime(DRIVER) >= os.path.getmtime(d) for d in deps):
+            raise BuildError("driver", f"coq/Extract/m_{name}.ml missing (extraction did not run)")
+        deps = [os.path.join(src, f) for f in (f"m_{name}.ml", f"m_{name}.mli", f"d_{name}.ml", "sexp.ml", "prelude.ml")]
+        out = driver_path(name)
+        if os.path.exists(out) and all(os.path.getmtime(out) >= os.path.getmtime(d) for d in deps):
             return
-        bd = os.path.join(CACHE, "ocaml")
+        bd = os.path.join(CACHE, "ocaml_" + name)
         shutil.rmtree(bd, ignore_errors=True)
         os.makedirs(bd)
-        for d in deps:
+        for d in deps[:2] + [deps[3]]:
             shutil.copy(d, bd)
-        r = run(["ocamlfind", "ocamlopt", "-O3", "-w", "-a", "sexp.ml", "model.mli", "model.ml",
-                 "driver.ml", "-o", DRIVER + ".tmp"], cwd=bd)
+        with open(os.path.join(bd, "driver.ml"), "w") as f:
+            f.write(f"open M_{name}\n")
+            f.write(open(deps[4]).read())
+            f.write(open(deps[2]).read())
+        r = run(["ocamlfind", "ocamlopt", "-O3", "-w", "-a", "sexp.ml", f"m_{name}.mli", f"m_{name}.ml",
+                 "driver.ml", "-o", out + ".tmp"], cwd=bd)
         if r.returncode != 0:
             raise BuildError("driver", r.stdout)
-        os.replace(DRIVER + ".tmp", DRIVER)
+        os.replace(out + ".tmp", out)
 
 
 def cargo_build():
